@@ -40,7 +40,7 @@ RULE = ('engine: every position-tagged stream of length n over a 3-symbol pointe
         '(giant, fixed sizes, single/pair cuts at +-1 of structure boundaries, byte windows, random, empty chunks, '
         'interleaved queries). non-trivial = stream carries a signature or structured header and the schedule has '
         '>= 2 chunks; distinct by (stream digest, schedule digest)')
-REQUIRED_CLAUSES = ['O-carrier-and-options-invariance', 'W-short-read-source', 'I-instance-isolation', 'E-region-exactness-backward-pointers', 'R-region-exactness', 'V-verdict-invariance', 'Q-queries-pure', 'E-engine-slice-semantics',
+REQUIRED_CLAUSES = ['L-large-second-chunk', 'O-carrier-and-options-invariance', 'W-short-read-source', 'I-instance-isolation', 'E-region-exactness-backward-pointers', 'R-region-exactness', 'V-verdict-invariance', 'Q-queries-pure', 'E-engine-slice-semantics',
                     'W-wrapper-verdict-invariance', 'actual-size']
 ASSUMPTIONS = ['ground truth for regions is the presented stream itself (slice semantics)',
                'known findings F1 F3 are attributed by input-only predicates (vlib/known.py, imagegen.vhdx_backward)']
@@ -511,6 +511,10 @@ MINIMAL = [
     {'gen': 'vmdk', 'params': {'desc_num': 2, 'min_total': 0, 'footer': True}},
     {'gen': 'vmdk', 'params': {'desc_num': 1, 'min_total': 0, 'footer': True, 'footer_pert': 'fver', 'extents': ['RW 1 SPARSE "d"']}},
     {'gen': 'vmdk', 'params': {'desc_num': 1, 'min_total': 0, 'ver': 7, 'extents': ['RW 1 SPARSE "d"']}},
+    # bytes 64..511 of the header sector are not documented fields: whatever they hold, the verdict cannot depend on how
+    # much of that sector the chunk that completes the 64-byte header happened to bring along
+    {'gen': 'vmdk', 'params': {'desc_num': 1, 'min_total': 0, 'hdr_filler_seed': 11, 'extents': ['RW 1 SPARSE "d"']}},
+    {'gen': 'vmdk', 'params': {'desc_num': 1, 'min_total': 0, 'hdr_filler_seed': 12, 'footer': True, 'extents': ['RW 1 SPARSE "d"']}},
     {'gen': 'raw', 'params': {'kind': 'random', 'total': 900, 'seed': 3}},
 ]
 
@@ -581,10 +585,43 @@ def expand(cuts, n):
     return cuts
 
 
+def run_large_chunks(ctx, idx0):
+    """Multi-megabyte streams cut once INSIDE a captured structure, the rest (more than 4 MiB) in one read - what a
+    consumer with large reads (mmap, object-store ranges) presents - against the same bytes in one piece and in 64 KiB reads."""
+    idx = idx0
+    big = 5 * 1024 * 1024 + 333
+    specs = [({'gen': 'qcow2', 'params': {'total': big, 'version': 3}}, [16, 100, 300, 511]),
+             ({'gen': 'vhd', 'params': {'total': big}}, [8, 44, 300]), ({'gen': 'vdi', 'params': {'total': big}}, [0x44, 0x174, 400]),
+             ({'gen': 'luks', 'params': {'payload': 8, 'total': big}}, [6, 106, 300]),
+             ({'gen': 'gpt', 'params': {'total': big}}, [446, 500, 511]),
+             ({'gen': 'iso', 'params': {'total': big}}, [32768 + 3, 32768 + 100, 32768 + 1000]),
+             ({'gen': 'vmdk', 'params': {'desc_num': 4, 'min_total': big}}, [30, 64, 600, 2000]),
+             ({'gen': 'vmdk', 'params': {'desc_num': 4, 'min_total': big, 'footer': True}}, [30, 600]),
+             ({'gen': 'vhdx', 'params': {'meta_off': 1024 * 1024, 'tail': big}}, [10, 65536 + 100, 196608 + 40, 1024 * 1024 + 20,
+                                                                                    1024 * 1024 + 65536 + 4])]
+    for spec, cuts in specs:
+        idx += 1
+        if not ctx.mine(idx):
+            continue
+        data, _truth = ig.build(spec)
+        n = len(data)
+        scheds = [['giant', [], [], False], ['fixed-65536', sl.fixed(n, 65536), [], False]]
+        for c in cuts:
+            scheds.append(['cut-inside-structure-then-over-4MiB', [c], [], False])
+            scheds.append(['cut-inside-structure-then-over-4MiB+bytearray', [c], [], False, {'carrier': 'bytearray'}])
+        scheds.append(['two-cuts-then-over-4MiB', [cuts[0], cuts[-1]], [], False])
+        ctx.clause('L-large-second-chunk')
+        ctx.h('format x stream class', '%s/large-chunks' % spec['gen'])
+        eval_stream(ctx, {'kind': 'stream', 'spec': spec, 'inspectors': [ig.INSPECTOR_OF[spec['gen']]], 'schedules': scheds,
+                          'wrapper': True, 'structured': True})
+    return idx
+
+
 def run(ctx):
     run_engine(ctx)
     run_chain(ctx, 10 ** 9)
     run_every_cut(ctx, 2 * 10 ** 9)
+    run_large_chunks(ctx, 3 * 10 ** 9)
     if ctx.shard == 0:
         for fid, spec, insps, scheds, wrap in CANARIES:
             data, _t = ig.build(spec)
